@@ -126,13 +126,15 @@ TUPLE_AST = {
     "<else>": "FTupleFixed",
 }
 ARITY1 = {"len(members) != 1", "len(args) != 1"}
+# "at least one argument" (Annotated[()] can only be written as a string / AST: typing itself refuses to build it)
+ARITY_NONEMPTY = {"not members", "not args"}
 CONTEXT_GUARDS = {"not allow_unpack", "not is_typeddict"}
 
 
 def _action(fname, body, actions, want_arity1):
     guards, rest = _strip_guards(body)
     for g in guards:
-        if g not in ARITY1 and g not in CONTEXT_GUARDS:
+        if g not in ARITY1 and g not in ARITY_NONEMPTY and g not in CONTEXT_GUARDS:
             _fail(fname, body[0], f"unknown guard `{g}`")
     txt = _text(rest)
     # a leading comment-only TODO does not appear in the AST; nothing to strip
